@@ -554,7 +554,7 @@ pub fn main(ctx: &Ctx) -> ! {
     let strat = case_strategy(gc);
     campaign(
         ctx,
-        CampaignCfg { stream: "c39", cases: ctx.pick(5_000, 80_000), batch: 256, max_shrink: ctx.pick(600, 3000) },
+        CampaignCfg { stream: "c39", cases: ctx.pick(8_000, 150_000), batch: 256, max_shrink: ctx.pick(600, 3000) },
         &strat,
         &mut report,
         &|g: &GenCase| realize(g, &vc, &allowed),
